@@ -265,6 +265,12 @@ def run(chk, db):
     chk.rule('SS', 'stream status mapping', minimum=2)
     rwrules.check_stream_class(chk, db, 'nop::StreamReader', 'reader', 'ST', 'SS')
     rwrules.check_stream_class(chk, db, 'nop::StreamWriter', 'writer', 'ST', 'SS')
+    chk.rule('RC', 'the buffer readers a BoundedReader usually wraps move / skip exactly the requested bytes or fail', minimum=6)
+    for rec in ('nop::BufferReader', 'nop::PedanticBufferReader'):
+        rwrules.check_buffer_class(chk, db, rec, {'T': None, 'G': None, 'E': None, 'C': 'RC'}, guard_required=False)
+    from .. import tsrules
+    tsrules.noexcept_rule(chk, db, 'NX', ('nop::BoundedReader', 'nop::BoundedWriter'), minimum=2,
+                          text='members of the bounded wrappers declared noexcept call nothing that may throw (the wrapped reader / writer is arbitrary user code)')
     copyrules.check(chk, db, 'CP', {'nop::BoundedReader', 'nop::BoundedWriter'}, minimum=4,
                     text='a copied / moved / assigned bounded wrapper keeps the consumed count, the limit and the wrapped object (the budget is not refreshed)')
     chk.explanation = (
